@@ -45,13 +45,13 @@ def run(ctx):
     def sub(f, *a, **kw):
         time.sleep(0.1)        # vlib names TLC's metadir by millisecond
         return ex.submit(f, *a, **kw)
-    f_mc = sub(H.mc, ctx, "MCDirectory.cfg", timeout=2400, workers=4 if q else 8)
+    f_mc = sub(H.mc, ctx, "MCDirectoryQ.cfg" if q else "MCDirectory.cfg", timeout=2400, workers=4 if q else 8)
     f_dev = sub(H.mc, ctx, "MCDirectoryDev.cfg", timeout=1200, workers=2, expect_violation="ShardedIffRuleStrict")
-    f_all = None if q else sub(H.mc, ctx, "MCDirectoryAllDevs.cfg", timeout=3000, workers=8)
+    f_all = None if q else sub(H.mc, ctx, "MCDirectoryAllDevs.cfg", cov=False, timeout=3000, workers=8)
     # ---- G generators + harness build, concurrently
     f_beh = sub(ctx.tlc_gen, "Directory", "GenDirectory.tla", "GenDirectory16D4.cfg" if q else "GenDirectory16D5.cfg",
                       timeout=3000, workers=4)
-    f_sim = sub(ctx.tlc_gen, "Directory", "GenDirectory.tla", "GenDirectorySim16.cfg", simulate=8 if q else 100,
+    f_sim = sub(ctx.tlc_gen, "Directory", "GenDirectory.tla", "GenDirectorySim16.cfg", simulate=8 if q else 60,
                       depth=41 * (3 if q else 8) + 1, timeout=1200)
     f_d6 = None if q else sub(ctx.tlc_gen, "Directory", "GenDirectory.tla", "GenDirectory16D6One.cfg", timeout=3000, workers=4)
     f_bin = ex.submit(H.build, ctx)
@@ -60,17 +60,17 @@ def run(ctx):
         return
     total = len(behs)
     if q:
-        behs = ctx.rng.sample(behs, min(len(behs), int(os.environ.get("VERIF_C16_SAMPLE", "2500"))))
+        behs = ctx.rng.sample(behs, min(len(behs), int(os.environ.get("VERIF_C16_SAMPLE", "2000"))))
     else:
         d4 = ctx.tlc_gen("Directory", "GenDirectory.tla", "GenDirectory16D4.cfg", timeout=3000, workers=4)   # exhaustive
         d6 = f_d6.result()
-        behs = d4 + ctx.rng.sample(behs, min(len(behs), 40000)) + ctx.rng.sample(d6, min(len(d6), 15000))
+        behs = d4 + ctx.rng.sample(behs, min(len(behs), 25000)) + ctx.rng.sample(d6, min(len(d6), 8000))
         ctx.cov["exhaustive"] = True
     ctx.log("G: %d of %d enumerated histories + %d simulated" % (len(behs), total, len(sims)))
     behs += sims
     recs = H.record(ctx, binp, "TestVerifC16", behs, name="g16", timeout=6000, parts=1 if q else 6)
     # ---- T: random histories over natural names (recorded now, validated together with G)
-    rr = H.record(ctx, binp, "TestVerifC16", None, name="t16", env=dict(C16_RUNS=25 if q else 500, C16_LEN=40, C16_NAMES=8))
+    rr = H.record(ctx, binp, "TestVerifC16", None, name="t16", env=dict(C16_RUNS=25 if q else 300, C16_LEN=40, C16_NAMES=8))
     if recs is None or rr is None:
         return
     ctx.sample(dict(cfg=behs[len(behs) // 3]["cfg"], ops=behs[len(behs) // 3]["ops"]))
